@@ -98,6 +98,11 @@ CHECKS = {
   text="Histories of 100-150 operations per case against a node with a real LinkApplication: valid / future / stale / replacement / underfunded / duplicate / oversized / under-paid submissions, confidential A->U, U->U, U->A with ring sizes 1-5, conflicting and already-spent confidential spends; Reap with caps, proposal probes validated by a replica, own commits and foreign commits with rival transactions, over pool size configurations. "
        "After every operation: offered lists pairwise distinct, not committed, key images distinct and unspent, per-sender nonces gap-free from the committed nonce, offered and queued disjoint, executable queued transactions promoted, membership of every submitted transaction exact; a block built from a Reap must be proposed and accepted by the replica. Held on the histories explored.",
   note="three genuine defects fixed (speculative state advanced by a rejected under-paid A->U; unsynchronised BasicChecked flag; Sender writing to the shared transaction). Wall-clock rules (GoodTxDropTime, cache expiry) are pinned off; special transactions and contract calls are not generated here (C05 does)."),
+ "C08": dict(
+  level="exploration", design="§5 C08", engine="chainkit",
+  technique="mutation monitoring of the real signature and ownership checks: every signed transaction kind is perturbed at every leaf of its wire tree (plus structural, multi-field, signature-encoding and chain-parameter forms) and offered to CheckBasic, the mempool and a second replica's CheckBlock; differential lane against a pure-Go secp256k1 reference for Ecrecover/VerifySignature/ValidateSignatureValues/From; ownership scans with non-owner key sets; sender-cache lane (warm object vs fresh recovery, warm vs cold replica)",
+  text="Four lanes. account: honest tx/create/txt/cut/mst, every leaf mutated with all byte and structural operators, 57 hostile (r,s,v) forms per signature, 6 hash suffixes x 3 v-forms (other chain parameter, none). confidential: two replicas, five wallets x four sub-addresses scan every output (owner recognises/decodes/derives the key image, non-owners are blind), five spend kinds mutated by reflection at every typed site plus re-balanced pseudo-outs, compensated fee, forged spends with non-owner keys; a mutant counts as accepted only if CheckBasic passes and a block containing it passes CheckBlock on the second replica. cache: re-signed warm objects and pool-cached candidates must be attributed to the sender recovered from their bytes. signature: library functions vs the reference. Held on what was explored, modulo three known findings.",
+  note="one genuine defect fixed (memoised sender survived re-signing). Known findings (repairs would change consensus rules / transaction format): unprotected v=27/28 signatures accepted; RCTSig of account->confidential transactions unsigned; ring-size-1 pseudo-outs unbound. RingCT is the stand-in: the composition of the pre-MLSAG hash is the shim's."),
  "C09": dict(
   level="exploration", design="§5 C09", engine="refmodel",
   technique="recorded-observation and differential-twin monitoring of the real StateDB: random programs with nested snapshot/revert and copies on all four storage backends",
